@@ -1424,6 +1424,7 @@ int xmpp_conn_restore_sm_state(xmpp_conn_t *conn,
             conn->send_queue_head = item;
             conn->send_queue_tail = item;
         } else {
+            item->prev = conn->send_queue_tail;
             conn->send_queue_tail->next = item;
             conn->send_queue_tail = item;
         }
